@@ -59,7 +59,7 @@ func mkSink(i, outcome int) *fsink {
 func sinkFaults(run *ev.Run, maxK int) (evals int, distinct map[string]bool) {
 	distinct = map[string]bool{}
 	enc := func() zapcore.Encoder { return zapcore.NewJSONEncoder(zap.NewProductionEncoderConfig()) }
-	for _, topo := range []string{"tee", "multi"} {
+	for _, topo := range []string{"tee", "teewrap", "multi"} {
 		for k := 1; k <= maxK; k++ {
 			total := 1
 			for i := 0; i < k; i++ {
@@ -76,12 +76,17 @@ func sinkFaults(run *ev.Run, maxK int) (evals int, distinct map[string]bool) {
 						x /= 4
 					}
 					var core zapcore.Core
-					if topo == "tee" {
+					if topo == "tee" || topo == "teewrap" {
 						cores := make([]zapcore.Core, k)
 						for i, s := range sinks {
 							cores[i] = zapcore.NewCore(enc(), s, zapcore.DebugLevel)
 						}
 						core = zapcore.NewTee(cores...)
+						if topo == "teewrap" {
+							// a user-written decorator core: it registers ITSELF in Check and
+							// forwards Write / Sync, so the tee is reached through its Write method
+							core = fwdCore{core}
+						}
 					} else {
 						wss := make([]zapcore.WriteSyncer, k)
 						for i, s := range sinks {
@@ -154,6 +159,18 @@ func sinkFaults(run *ev.Run, maxK int) (evals int, distinct map[string]bool) {
 	}
 	return
 }
+
+// fwdCore is the usual shape of a user-written wrapper core (metrics,
+// filtering ...): Check adds the wrapper, Write and Sync are forwarded.
+type fwdCore struct{ zapcore.Core }
+
+func (c fwdCore) Check(ent zapcore.Entry, ce *zapcore.CheckedEntry) *zapcore.CheckedEntry {
+	if c.Enabled(ent.Level) {
+		return ce.AddCore(ent, c)
+	}
+	return ce
+}
+func (c fwdCore) With(fs []zapcore.Field) zapcore.Core { return fwdCore{c.Core.With(fs)} }
 
 type hook func()
 
